@@ -1629,6 +1629,11 @@ func (x *c09Ctx) ruleR5() {
 					if _, fresh := root.(*ssa.Alloc); fresh {
 						continue
 					}
+					if par, isPar := root.(*ssa.Parameter); isPar && x.paramAlwaysFresh(fn, par) {
+						// the object was allocated by the message handler that passes it in
+						// (e.g. lockSwap recording the channel in the machine it locks in)
+						continue
+					}
 					bad = append(bad, fmt.Sprintf("store to %s at %s", through, w.Pos(y.Pos())))
 					pos = w.Pos(y.Pos())
 				case ssa.CallInstruction:
@@ -1691,4 +1696,49 @@ func (x *c09Ctx) addrThrough(a ssa.Value) (string, ssa.Value) {
 		break
 	}
 	return through, v
+}
+
+// paramAlwaysFresh: at every call site of fn inside the functions walked for R5
+// the argument bound to par is the result of an in-module constructor, i.e. a
+// call whose every returned value is a fresh allocation.
+func (x *c09Ctx) paramAlwaysFresh(fn *ssa.Function, par *ssa.Parameter) bool {
+	idx := -1
+	for i, p := range fn.Params {
+		if p == par {
+			idx = i
+		}
+	}
+	if idx < 0 {
+		return false
+	}
+	sites := 0
+	for caller := range x.visitedR5 {
+		for _, call := range an.Calls(caller) {
+			if call.Common().StaticCallee() != fn {
+				continue
+			}
+			sites++
+			args := call.Common().Args
+			if idx >= len(args) {
+				return false
+			}
+			cv, ok := args[idx].(*ssa.Call)
+			if !ok {
+				return false
+			}
+			callee := cv.Common().StaticCallee()
+			if callee == nil || !x.w.InModule(callee) || callee.Blocks == nil {
+				return false
+			}
+			for _, r := range an.Returns(callee) {
+				if len(r.Results) != 1 {
+					return false
+				}
+				if _, isAlloc := r.Results[0].(*ssa.Alloc); !isAlloc {
+					return false
+				}
+			}
+		}
+	}
+	return sites > 0
 }
